@@ -382,21 +382,55 @@ func c16r3(c *Check) {
 	rws := c.P.Func("persister", "", "ReadWhisperSchemas")
 	prioF := c.P.Field("persister", "Schema", "Priority")
 	var prioStore *ssa.Store
-	allInstrs(rws, func(in ssa.Instruction) {
-		if st, ok := in.(*ssa.Store); ok {
-			if fa, ok := st.Addr.(*ssa.FieldAddr); ok && fieldOfAddr(fa) == prioF {
-				prioStore = st
+	var prioFn *ssa.Function
+	for _, f := range samePkgCallees(c.P, rws) {
+		f := f
+		allInstrs(f, func(in ssa.Instruction) {
+			if st, ok := in.(*ssa.Store); ok {
+				if fa, ok := st.Addr.(*ssa.FieldAddr); ok && fieldOfAddr(fa) == prioF {
+					prioStore, prioFn = st, f
+				}
 			}
-		}
-	})
+		})
+	}
 	if prioStore == nil {
 		anchorFail("ReadWhisperSchemas: store into Schema.Priority not found")
 	}
-	if l := innermostLoop(loopsOf(rws), prioStore.Block()); l == nil {
-		c.Violate("persister.ReadWhisperSchemas priority per section", c.At(prioStore), "Schema.Priority is not assigned inside the loop over the sections")
+	if prioFn == rws {
+		if l := innermostLoop(loopsOf(rws), prioStore.Block()); l == nil {
+			c.Violate("persister.ReadWhisperSchemas priority per section", c.At(prioStore), "Schema.Priority is not assigned inside the loop over the sections")
+		} else {
+			why := loopCarried(c.P, prioStore.Val, l, prioStore)
+			c.Judge(why == "", "persister.ReadWhisperSchemas priority per section", c.At(prioStore), "computed from this section's `priority` setting (default 0) and its position only", "a section's priority depends on an earlier section: "+why+" — a section without `priority` inherits the last one given, so the rule order (first match wins) is not the documented one")
+		}
 	} else {
-		why := loopCarried(c.P, prioStore.Val, l, prioStore)
-		c.Judge(why == "", "persister.ReadWhisperSchemas priority per section", c.At(prioStore), "computed from this section's `priority` setting (default 0) and its position only", "a section's priority depends on an earlier section: "+why+" — a section without `priority` inherits the last one given, so the rule order (first match wins) is not the documented one")
+		// the section is parsed by a helper called once per section: what it is given is this section's own
+		why, nSites := "", 0
+		for _, e := range c.P.CG().In[prioFn] {
+			if e.Caller != rws || e.Kind != EdgeCall {
+				continue
+			}
+			nSites++
+			l := innermostLoop(loopsOf(rws), e.Site.Block())
+			if l == nil {
+				why = "the helper that sets Schema.Priority is not called inside the loop over the sections"
+				continue
+			}
+			for _, a := range callCommon(e.Site).Args {
+				if w := loopCarried(c.P, a, l, e.Site); w != "" {
+					why = w
+				}
+			}
+		}
+		// inside the helper the value may not come from package state
+		allInstrs(prioFn, func(in ssa.Instruction) {
+			if u, ok := in.(*ssa.UnOp); ok {
+				if _, isG := u.X.(*ssa.Global); isG && derivedFromAny(prioStore.Val, u) {
+					why = "the priority is computed from a package variable (" + c.At(in) + ")"
+				}
+			}
+		})
+		c.Judge(why == "" && nSites > 0, "persister.ReadWhisperSchemas priority per section", c.At(prioStore), "computed by "+prioFn.Name()+" from this section's settings and its position only", "a section's priority depends on an earlier section: "+why+" — a section without `priority` inherits the last one given, so the rule order (first match wins) is not the documented one")
 	}
 	// ini values are taken as written: the key/value split is applied to the very line that the
 	// comment and section tests looked at (nothing is cut out of it first)
@@ -438,28 +472,107 @@ func c16r3(c *Check) {
 	if splitAt == nil {
 		anchorFail("parseIniFile: key = value split not found")
 	}
+	// ... and what is stored as the setting's value is the text after the '=', with nothing but
+	// surrounding white space and quotes removed
+	var valueProblem string
+	nVal := 0
+	var trimmedOnly func(v ssa.Value, depth int) bool
+	trimmedOnly = func(v ssa.Value, depth int) bool {
+		if depth > 8 {
+			return false
+		}
+		switch x := v.(type) {
+		case *ssa.Call:
+			switch calleeName(x.Common()) {
+			case "strings.TrimSpace":
+				return trimmedOnly(x.Call.Args[0], depth+1)
+			case "strings.Trim", "strings.TrimLeft", "strings.TrimRight":
+				if cut, ok := constString(x.Call.Args[1]); ok && strings.Trim(cut, "\"' \t") == "" {
+					return trimmedOnly(x.Call.Args[0], depth+1)
+				}
+				return false
+			}
+			// a helper of the package: its result must be its argument, trimmed in the same way
+			if g := x.Call.StaticCallee(); g != nil && g.Blocks != nil && fnPkg(g) == fnPkg(pif) && len(g.Params) == 1 && len(x.Call.Args) == 1 {
+				okAll, nRet := true, 0
+				allInstrs(g, func(in ssa.Instruction) {
+					if r, ok := in.(*ssa.Return); ok && len(r.Results) == 1 {
+						nRet++
+						if !trimmedOnly(r.Results[0], depth+1) {
+							okAll = false
+						}
+					}
+				})
+				return okAll && nRet > 0 && trimmedOnly(x.Call.Args[0], depth+1)
+			}
+			return false
+		case *ssa.Parameter:
+			return x.Parent() != pif
+		case *ssa.UnOp:
+			// element of the key/value split
+			if ia, ok := x.X.(*ssa.IndexAddr); ok {
+				if k, ok := constInt(ia.Index); ok && k == 1 {
+					if call, ok := ia.X.(*ssa.Call); ok && call == splitAt {
+						return true
+					}
+				}
+			}
+			return false
+		case *ssa.Phi:
+			for _, e := range x.Edges {
+				if !trimmedOnly(e, depth+1) {
+					return false
+				}
+			}
+			return len(x.Edges) > 0
+		case *ssa.Extract:
+			// strings.Cut(line, "=") style
+			if call, ok := x.Tuple.(*ssa.Call); ok && (calleeName(call.Common()) == "strings.Cut") && x.Index == 1 {
+				return true
+			}
+		}
+		return false
+	}
+	for _, f := range samePkgCallees(c.P, pif) {
+		allInstrs(f, func(in ssa.Instruction) {
+			mu, ok := in.(*ssa.MapUpdate)
+			if !ok {
+				return
+			}
+			if _, isConstKey := mu.Key.(*ssa.Const); isConstKey {
+				return // section["name"] = ...
+			}
+			nVal++
+			if !trimmedOnly(mu.Value, 0) {
+				valueProblem = "the value stored for a setting (" + c.At(mu) + ") is not just the text after '=' with surrounding white space and quotes removed"
+			}
+		})
+	}
+	c.Judge(valueProblem == "" && nVal > 0, "persister.parseIniFile stores values as written", c.At(splitAt), "value = Trim(TrimSpace(kv[1]), quotes)", valueProblem+": something is cut out of the value (e.g. a trailing `;…` / `#…`), so a storage-schemas pattern that contains ';' (tag matching) or '#' is silently truncated and matches series it should not")
 	c.Judge(lineVals[splitArg], "persister.parseIniFile takes values as written", c.At(splitAt), "SplitN(line, \"=\", 2) on the trimmed line itself", "the line is edited before it is split into key and value (e.g. a trailing `;…` / `#…` is cut off): a storage-schemas pattern that contains ';' (tag matching) or '#' is silently truncated and matches series it should not")
 	c.Judge(okFirst, "persister.WhisperSchemas.Match returns at the first matching schema", c.AtFn(m), "return inside the range loop over the (sorted) schemas", "Match does not stop at the first matching rule in slice order (e.g. it keeps scanning and returns the last match)")
 	rs := c.P.Func("persister", "", "ReadWhisperSchemas")
 	sorted := false
 	prio := false
-	allInstrs(rs, func(in ssa.Instruction) {
-		if call, ok := in.(*ssa.Call); ok && (calleeName(call.Common()) == "sort.Sort" || calleeName(call.Common()) == "sort.Stable") {
-			sorted = true
-		}
-		// Priority = p<<32 - i
-		if st, ok := in.(*ssa.Store); ok {
-			if fa, ok := st.Addr.(*ssa.FieldAddr); ok && fieldOfAddr(fa).Name() == "Priority" {
-				if sub, ok := st.Val.(*ssa.BinOp); ok && sub.Op == token.SUB {
-					if shl, ok := sub.X.(*ssa.BinOp); ok && shl.Op == token.SHL {
-						if k, ok := constInt(shl.Y); ok && k == 32 {
-							prio = true
+	for _, rsf := range samePkgCallees(c.P, rs) {
+		allInstrs(rsf, func(in ssa.Instruction) {
+			if call, ok := in.(*ssa.Call); ok && rsf == rs && (calleeName(call.Common()) == "sort.Sort" || calleeName(call.Common()) == "sort.Stable") {
+				sorted = true
+			}
+			// Priority = p<<32 - i
+			if st, ok := in.(*ssa.Store); ok {
+				if fa, ok := st.Addr.(*ssa.FieldAddr); ok && fieldOfAddr(fa).Name() == "Priority" {
+					if sub, ok := st.Val.(*ssa.BinOp); ok && sub.Op == token.SUB {
+						if shl, ok := sub.X.(*ssa.BinOp); ok && shl.Op == token.SHL {
+							if k, ok := constInt(shl.Y); ok && k == 32 {
+								prio = true
+							}
 						}
 					}
 				}
 			}
-		}
-	})
+		})
+	}
 	c.Judge(sorted && prio, "persister.ReadWhisperSchemas sorts by priority, ties by file position", c.AtFn(rs), "Priority = priority<<32 − index; sort.Sort(schemas)", "schemas are not ordered by (priority, position in file) after reading")
 	less := c.P.Func("persister", "WhisperSchemas", "Less")
 	okLess := false
@@ -514,4 +627,30 @@ func stringBuiltFrom(v ssa.Value, part ssa.Value, depth int) bool {
 // inlineConnMethods: helpers of destination.Conn (e.g. an extracted encode step) are expanded in place.
 func inlineConnMethods(g *ssa.Function) bool {
 	return g.Signature.Recv() != nil && strings.HasSuffix(g.Signature.Recv().Type().String(), "destination.Conn")
+}
+
+// derivedFromAny: v is computed (arithmetic, conversions, phis) from w.
+func derivedFromAny(v, w ssa.Value) bool {
+	seen := map[ssa.Value]bool{}
+	var walk func(x ssa.Value, d int) bool
+	walk = func(x ssa.Value, d int) bool {
+		if x == w {
+			return true
+		}
+		if d > 12 || seen[x] {
+			return false
+		}
+		seen[x] = true
+		in, ok := x.(ssa.Instruction)
+		if !ok {
+			return false
+		}
+		for _, op := range in.Operands(nil) {
+			if *op != nil && walk(*op, d+1) {
+				return true
+			}
+		}
+		return false
+	}
+	return walk(v, 0)
 }
